@@ -425,7 +425,9 @@ class SessionModel:
         self.last_abs = None  # absolute index of most recently written sample
 
     def classify_write(self, rel, n):
-        """valid iff rel >= next_avail (n >= 1)"""
+        """valid iff rel >= next_avail (n >= 1) and the absolute index of the last sample fits in 64 bits"""
+        if rel < 0 or self.cfg.start + rel + max(n, 1) - 1 >= 2**64:
+            return False
         return rel >= self.next_avail
 
     def classify_blocks(self, g, b, n):
@@ -439,6 +441,8 @@ class SessionModel:
             if b[i] - b[i - 1] > g[i] - g[i - 1]:
                 return False
         if b[-1] >= n:
+            return False
+        if min(g) < 0 or min(b) < 0 or self.cfg.start + g[-1] + (n - b[-1]) - 1 >= 2**64:
             return False
         return True
 
